@@ -95,7 +95,100 @@ CHECKS["C18"] = dict(
     technique="Coq proof (semantic equivalence by induction over query ASTs and graph depth) + differential check",
     design="5/C18")
 
-READY = ["C02", "C03", "C10", "C11", "C17", "C18", "C19", "C20"]
+CHECKS["C01"] = dict(
+    text="Coq model of the builder's invalidate-run-record logic (_cookBuildStep, _preparePackageStep/_cookPackageStep, the "
+         "script part of _cookCheckoutStep) as micro-operation sequences on workspace slots, lifted to projects (dependency-"
+         "ordered steps) and histories of projects. Unbounded theorems: for every history of project states with an incremental "
+         "build after each, every workspace of the final project holds what a from-scratch build produces "
+         "(incremental_equals_clean); one build from any invariant state is correct and re-establishes the invariants; a "
+         "repeated build runs no build/package step and no deterministic checkout; a reused directory is pruned before use. Tie: "
+         "real `bob dev` over generated edit/revert histories: per-step run/skip decisions of every build compared with the "
+         "model (history_runs, vm_compute); oracle: dist trees equal a clean build after every step; repeat build is a no-op.",
+    note="script behaviour is abstracted (deterministic, restartable; checkout scripts oblivious to leftovers) and satisfied by "
+         "the generated scripts by construction; equal input hashes => equal input content is C11; sandbox/fingerprint/download/"
+         "share paths are other properties",
+    technique="Coq proof (slot invariants at every micro-op, induction over dependency order and history) + decision correspondence",
+    design="5/C01-C05")
+CHECKS["C05"] = dict(
+    text="Same Coq development (Builder/): every crash image of every step — a kill after any persistent-state operation or "
+         "inside the running script (partial output) — keeps the invariant of every workspace; from any invariant state the next "
+         "build yields the clean results (abort_recovers), hence after any sequence of aborts; a step is skipped only if its "
+         "workspace holds the complete output for the current inputs. The proof attempt exposed finding F29 (kill between prune "
+         "and state reset), fixed in /repo. Tie: C01's decision correspondence on the same model; oracle: real builds aborted by "
+         "kill at the k-th state save, kill right after a prune, failing scripts, SIGKILL from inside a script, then lock removed, "
+         "rebuilt and compared with a clean build.",
+    note="as C01; kill points inside individual file operations of the state file are C10's matter",
+    technique="Coq proof (invariant over all crash prefixes) + fault injection on real builds",
+    design="5/C01-C05")
+CHECKS["C06"] = dict(
+    text="Two Coq LTS models, any number of tasks/tokens/nodes, all interleavings: (a) JobServerSemaphore (pipe, token stack, "
+         "waiters, grants, recursive mode): tokens conserved, acquired bounded, quiescent => all returned, release never crashes, "
+         "no lost wake-up; (b) the cook scheduler (task keys, fence, workspace lock with the token yielded, wasRun, failed "
+         "workspaces, keep-going): jobs bounded, deps before start, workspace exclusive and once, failure stops/confined, "
+         "schedule independence, progress (no deadlock); the three pre-fix protocols are `_refuted` by witnesses (F7, F21, F31). "
+         "Tie: the real semaphore stepped by scripted interleavings and compared state by state; real `bob dev -jN [-k] "
+         "[--sandbox]` traces replayed through the model's trace monitor; dist equal to -j1.",
+    note="that asyncio, the OS pipe and builder.py refine the two LTS is sampled, not proved; --checkout-only, restart and "
+         "cancellation are not modelled",
+    technique="Coq proof (LTS invariants by induction on steps, progress) + trace acceptance of real schedules",
+    design="5/C06")
+CHECKS["C08"] = dict(
+    text="Coq model of artifact extraction over a file system with symlinks and hard links (kernel path walk vs realpath, "
+         "tarfile's per-member behaviour incl. makedirs and the makelink fall-back, the extraction filter with the three fixes) "
+         "and of pack. Theorems: kernel resolution agrees with realpath, every accepted extraction leaves everything outside "
+         "workspace+audit untouched (content, mode, inode), per-member confinement, pack/extract round trip as path->node map, "
+         "wrong version/unknown member/truncation rejected, download accepted only if audit present and recorded hash = hash of "
+         "the extracted tree. Tie: hostile member lists and generated trees run through the real TarHelper/LocalArchive in a "
+         "chroot jail and compared with the model; truncations/bit flips through the real download path.",
+    note="tar/gzip codecs are the standard library's; confinement assumes no pre-existing symlink outside leading back in; one "
+         "corner (makelink fall-back re-creating a parent through the replaced link) is covered by corpus+oracle only",
+    technique="Coq proof (confinement invariant over member sequences) + differential extraction in a jail",
+    design="5/C08")
+CHECKS["C09"] = dict(
+    text="Coq interleaving LTS over a file system (names->inode->bytes) of package uploaders, cache mirrors, metadata "
+         "uploaders and readers, any number of processes, injected errors and kills at every program counter. Theorems: artifact "
+         "name absent or the complete payload of one finished uploader, immutable once present, failed/killed uploads leave "
+         "nothing, readers see nothing or a prefix of a complete artifact, mirror commits only a fully drained stream. Tie: the "
+         "real upload/download/mirror code run as threads with every file operation a scheduling point, same schedules on the "
+         "model; multi-process SIGKILL stress.",
+    note="file backend and POSIX branch only; HTTP/Azure/shell backends' atomicity is the server's; no power-loss model",
+    technique="Coq proof (inductive invariant over all interleavings) + scheduled differential runs + stress",
+    design="5/C09")
+CHECKS["C13"] = dict(
+    text="Coq model of shlex.quote, of bash word evaluation for the fragment Bob emits, of the generated prolog (exports, "
+         "PATH/LD_LIBRARY_PATH, arguments), the host-environment filter, the pruning to declared variables over "
+         "checkout/build/package/fingerprint, and of the sandbox mount plan. Theorems: bash_word (quote s) = s for every NUL-free "
+         "string and in any context, exported values exact, visible variables exactly declared + Bob's + whitelisted host, "
+         "arguments in order, tools on PATH, fingerprint env restricted, mount plan: only own workspace writable, every "
+         "dependency read-only, slim sandbox hides the project. Tie: quote vs real shlex.quote, bash_word vs real bash on every "
+         "string, real Invoker runs dumping env -0 and \"$@\", real sandbox runs compared with /proc/self/mountinfo.",
+    note="kernel enforcement of mounts and namespace-sandbox.c are exercised, not proved; BOB_*_PATHS arrays not modelled",
+    technique="Coq proof (lexer/quoting round trip by induction) + differential runs against bash and the real invoker",
+    design="5/C13")
+CHECKS["C14"] = dict(
+    text="Coq model of audit records (digestData with the source's type tags, artifact ids, merge/addArg/addTool/setSandbox, "
+         "validate, save/load) and of the audit-relevant micro-ops of cook/download/upload/share. Theorems: artifact id is a "
+         "function of the record, key-order independent, uniquely decodable hence injective up to an explicit hash collision; "
+         "merge keeps trails closed; every trail next to a workspace, in the archive and in the share validates over all "
+         "histories incl. failures; recorded ids/result hash equal what the state holds; a failure before setResultHash forces a "
+         "rerun. Tie: digestData/generate/validate compared with the real audit.py and _generateAudit; real bob builds "
+         "(fresh/incremental/download) with every audit.json.gz checked against live ids and a fresh hashDirectory.",
+    note="scms/env/build fields are environment inputs; tools part of dependency completeness is correspondence only",
+    technique="Coq proof (decoder round trip, closure invariant over histories) + differential check on real trails",
+    design="5/C14")
+CHECKS["C15"] = dict(
+    text="Coq LTS (33 control points) of LocalShare install/use/gc with two-level advisory locks, buffered writes, rename "
+         "install, auto-gc with newPkg protection; any processes, schedules, quota. Theorems: visible package complete and "
+         "hashed, lock protocol excludes, installed at most once, repo.json is the sum of installed packages (window between "
+         "rename and accounting explicit), gc collects oldest-first only unused until quota, no spurious failure; 'never "
+         "collected while used' is `_refuted` for the use-then-link window (known finding F8) and proved for recorded users with "
+         "an existing link. Tie: the real LocalShare driven by threads stopped at every control point under generated "
+         "schedules, compared with the model after every action; multi-process stress.",
+    note="flock/rename kernel semantics modelled; deadlock freedom only by oracle",
+    technique="Coq proof (LTS invariants over all interleavings) + scheduled differential runs on the real class",
+    design="5/C15")
+
+READY = ["C01", "C02", "C03", "C05", "C06", "C08", "C09", "C10", "C11", "C13", "C14", "C15", "C17", "C18", "C19", "C20"]
 
 NOT_YET = {}
 
